@@ -14,11 +14,14 @@ Base == 10000
 (* constant (TLC evaluates it once): a composite n <= 256 has a factor <= 16, a composite *)
 (* n < 2^16 has a prime factor <= 251.                                                    *)
 SmallPrimes == {n \in 2..256 : \A d \in 2..16 : d >= n \/ n % d # 0}
+SqrtBound(n) == IF n < 262144 THEN 511 ELSE IF n < 1048576 THEN 1023 ELSE IF n < 4194304 THEN 2047
+                ELSE IF n < 16777216 THEN 4095 ELSE IF n < 67108864 THEN 8191 ELSE IF n < 268435456 THEN 16383
+                ELSE IF n < 1073741824 THEN 32767 ELSE 46340          \* >= sqrt(n), < n for n >= 2^16
 IsPrime(n) ==
   /\ n > 1
   /\ IF n <= 256 THEN n \in SmallPrimes
      ELSE IF n < 65536 THEN \A d \in SmallPrimes : n % d # 0
-     ELSE \A d \in 2..46340 : d >= n \/ n % d # 0
+     ELSE \A d \in 2..SqrtBound(n) : n % d # 0
 
 (* the primes of the closed interval [lo, hi], increasing (no recursion over the interval: it may be wide) *)
 PrimesIn(lo, hi) == LET S == {n \in lo..hi : IsPrime(n)}
